@@ -290,6 +290,7 @@ func (a *Adapter) finishRenew(s *rsession) (out Outcome, err error) {
 			a.Issues = append(a.Issues, "renew: host reported success but the client rejects the result: "+res.err.Error())
 		} else {
 			s.renew.newID = res.contract.ID
+			a.E.Net.WaitServerDone(s.no, 30*time.Second)
 			a.checkRenewed(res.contract)
 		}
 	}
@@ -299,7 +300,6 @@ func (a *Adapter) finishRenew(s *rsession) (out Outcome, err error) {
 // checkRenewed: the new contract the host now holds is doubly signed, starts at revision 0 and
 // carries over the roots.
 func (a *Adapter) checkRenewed(nc rhp4.ContractRevision) {
-	a.E.Net.WaitLastServerDone(30 * time.Second)
 	st, err := a.E.State(nc.ID)
 	if err != nil {
 		a.Issues = append(a.Issues, "renew: host does not hold the new contract: "+err.Error())
